@@ -35,6 +35,17 @@ def translate():
     searches for a failing input) — not a tool error, which would hide a breaking change."""
     import traceback
     import translate as tr
+    global _GEN_MEMO
+    if _GEN_MEMO is not None:
+        return _GEN_MEMO
+    _GEN_MEMO = _translate_uncached(traceback, tr)
+    return _GEN_MEMO
+
+
+_GEN_MEMO = None
+
+
+def _translate_uncached(traceback, tr):
     with common.Lock("translate"):
         try:
             gen = tr.translate()
@@ -43,7 +54,81 @@ def translate():
             where = next((l.strip() for l in reversed(tb) if l.strip().startswith("File") and "translate" in l), "")
             return {"failed": "%s: %s (%s)" % (type(ex).__name__, ex, where), "files": [], "utils": {"statics": [], "typed_sites": []},
                     "source_hash": "untranslatable", "probe_per_header": {}}
+    # the function bodies in the C subset of CSem (Gen/Cir.lean); a source the serialiser cannot read
+    # leaves a stub that makes every refinement theorem fail by name
+    try:
+        import cir
+        with common.Lock("translate"):
+            names, outside = cir.generate()
+        gen["cir"] = {"functions": len(names), "outside": [list(o) for o in outside]}
+    except Exception as ex:
+        gen["cir"] = {"failed": "%s: %s" % (type(ex).__name__, str(ex)[-800:])}
+        stub = "/- the serialiser could not read the current sources: %s -/\nimport O1722.CSem.Syntax\nnamespace O1722.Gen.Cir\nend O1722.Gen.Cir\n" % type(ex).__name__
+        with common.Lock("lake"):
+            write_if_changed(os.path.join(LEAN, "O1722", "Gen", "Cir.lean"), stub)
     return gen
+
+
+def refine_stage(rep, prop, modules, theorems, what):
+    """Code-level stage: rebuild the refinement modules (proofs that the C text serialised into
+    Gen/Cir.lean, run by the C semantics of CSem/Eval.lean, equals the hand Model and satisfies the
+    property) against the regenerated Gen/Cir.lean, audit their axioms.  Returns the list of
+    theorems that no longer check (empty = all hold for the current sources)."""
+    gen = translate()
+    failed = []
+    log = ""
+    if gen.get("failed") or gen.get("cir", {}).get("failed"):
+        failed = list(theorems)
+        log = gen.get("failed") or gen["cir"]["failed"]
+    else:
+        ok, log = common.lake_build(modules)
+        if not ok:
+            # name the theorems of the module(s) that failed: those whose module did not build
+            bad_mods = set(re.findall(r"error: [^\n]*O1722/(?:Refine|Gen)/([A-Za-z]+)\.lean", log))
+            axioms = {}
+            try:
+                axioms, _ = common.print_axioms(modules[-1], theorems)
+            except Exception:
+                pass
+            failed = [t for t in theorems if t not in axioms]
+            if not failed:
+                failed = list(theorems)
+        else:
+            axioms, _ = common.print_axioms(modules[-1], theorems)
+            for t in theorems:
+                if t not in axioms:
+                    failed.append(t)
+                else:
+                    for a in axioms[t]:
+                        if a not in common.ALLOWED_AXIOMS:
+                            rep.violation("axiom:%s:%s" % (t, a), {"kind": "unexpected-axiom", "theorem": t, "axiom": a}, no_input=True)
+            rep.cov.setdefault("trusted_base", [])
+    rep.cov.setdefault("obligations", 0)
+    rep.cov["obligations"] += len(theorems)
+    rep.cov.setdefault("discharged", 0)
+    rep.cov["discharged"] += len(theorems) - len(failed)
+    rep.cov["code_level"] = {"what": what, "theorems": list(theorems), "failed": failed,
+                             "cmd": "python3 tools/cir.py && cd lean && lake build " + " ".join(modules),
+                             "functions_serialised": gen.get("cir", {}).get("functions"),
+                             "functions_outside_the_subset": [o[1] for o in gen.get("cir", {}).get("outside", [])]}
+    tb = rep.cov.get("trusted_base")
+    if isinstance(tb, list):
+        tb += ["tools/cir.py (clang-14 typed AST -> Gen/Cir.lean, no semantic decisions) and lean/O1722/CSem/Eval.lean "
+               "(C semantics: integer conversions, UB = stuck) for the code-level theorems"]
+    return failed, log[-3000:]
+
+
+def report_refine_failures(rep, failed, log, have_input):
+    """A refinement theorem that no longer checks: if the correspondence/search already produced a
+    concrete failing input it is the replay; otherwise the theorem is named, no-failing-input-found."""
+    if not failed or have_input:
+        return
+    for t in failed:
+        rep.violation("refinement:" + t, {"kind": "refinement-does-not-check", "theorem": t,
+                                          "note": "the proof that the C text (Gen/Cir.lean, regenerated from the current sources) "
+                                                  "computes what the Model computes no longer checks; the correspondence runs found "
+                                                  "no input on which the real code and the Spec/Model differ",
+                                          "log": log[-1500:]}, no_input=True)
 
 
 def write_if_changed(path, txt):
@@ -164,9 +249,32 @@ def proof_stage(rep, prop, imports, obligations, general_theorems, atoms_expr=No
             "gen": gen}
 
 
+# Code-level theorems per property: statements about the C TEXT (Gen/Cir.lean under CSem/Eval.lean),
+# rebuilt on every run.  (modules to build, theorems to audit, what they say)
+CODE_LEVEL = {
+    "C01": (["O1722.Refine.Props"], ["O1722.Refine.Avtp_GetField_refines", "O1722.Refine.C01_code"],
+            "the C text of Avtp_GetField = Model.getFieldLog (value, memory, access log), hence = the wire bits of the field"),
+    "C02": (["O1722.Refine.Props"], ["O1722.Refine.Avtp_SetField_refines", "O1722.Refine.C02_code"],
+            "the C text of Avtp_SetField = Model.setFieldLog, hence = the reference write of the value into the field's bits"),
+    "C11": (["O1722.Refine.Props"], ["O1722.Refine.C11_code"],
+            "the C text of Avtp_GetField/SetField on a NULL PDU or an out-of-range identifier: 0 / no effect, no memory access"),
+    "C14": (["O1722.Refine.Props"], ["O1722.Refine.C14_code"],
+            "the C text of Avtp_GetField/SetField with the little- and the big-endian form of Byteorder.h: same value, same bytes"),
+    "C03": (["O1722.Refine.Props"], ["O1722.Refine.C01_code", "O1722.Refine.C02_code"],
+            "every access of the C text of Avtp_GetField/SetField lies in a quadlet the field occupies"),
+    "C15": (["O1722.Refine.Props"], ["O1722.Refine.C01_code", "O1722.Refine.C02_code"],
+            "every access of the C text of Avtp_GetField/SetField is byte-wise (alignment 1), at any PDU address"),
+}
+
+
 def report_proof_failures(rep, prop, res, diff_keys_by_group):
     """Turn failed obligations into violations: if the differential run found a concrete
     disagreement in the same group it is the replay, otherwise `no-failing-input-found`."""
+    if prop in CODE_LEVEL:
+        mods, thms, what = CODE_LEVEL[prop]
+        failed, log = refine_stage(rep, prop, mods, thms, what)
+        have_input = any(not ni for _, _, ni in rep.violations)
+        report_refine_failures(rep, failed, log, have_input)
     for t, a in res["bad_axioms"]:
         rep.violation("axiom:%s:%s" % (t, a), {"kind": "unexpected-axiom", "theorem": t, "axiom": a}, no_input=True)
     for h in res["forbidden_hits"]:
